@@ -118,7 +118,7 @@ def St.panic (st : St) (msg : String) : St :=
 
 def nArrow (params : List Node) (body : Node) : Node :=
   .mk .arrow ["false", "false"] [nList params, body, nNone, nNone]
-def nBlock (stmts : List Node) : Node := .mk .block [] [nStmts stmts]
+def nBlock (stmts : List Node) : Node := .mk .block ["syn"] [nStmts stmts]
 def nReturn (e : Node) : Node := .mk .ret [] [e]
 def nAssignParen (target value : Node) : Node :=
   .mk .assign ["="] [.mk .paren [] [target], value]
